@@ -82,7 +82,7 @@ def _check_case(case, stats, keep):
         try:
             with os.fdopen(fd, "w", encoding="utf-8") as fh:
                 fh.write(ihex.dump(image, start=opts.get("start", 0), upper=opts.get("upper", True),
-                                   ext_record=opts.get("ext", False), lengths=opts.get("lengths")))
+                                   ext_record=opts.get("ext", False), lengths=opts.get("lengths"), skip_blank=opts.get("skip_blank", False)))
             from mysensors.ota import load_fw
 
             loaded = load_fw(path)
@@ -192,7 +192,7 @@ def _check_case(case, stats, keep):
             # the rebuilt firmware is written to the SAME file, and carries the same time stamp
             opts = case.get("hexopts", {})
             with open(keep[0], "w", encoding="utf-8") as fh:  # same tool, same options: same layout, same length for a same-size image
-                fh.write(ihex.dump(image3, start=opts.get("start", 0), upper=opts.get("upper", True), ext_record=opts.get("ext", False), lengths=opts.get("lengths")))
+                fh.write(ihex.dump(image3, start=opts.get("start", 0), upper=opts.get("upper", True), ext_record=opts.get("ext", False), lengths=opts.get("lengths"), skip_blank=opts.get("skip_blank", False)))
             os.utime(keep[0], (FIXED_MTIME, FIXED_MTIME))
             drv.update_fw(nodes, fw[0], fw[1], path=keep[0])
         else:
@@ -245,7 +245,7 @@ def make_case(length, rnd, full=None, via_hex=False):
     nodes = rnd.sample([1, 2, 3, 7], rnd.choice([1, 1, 2, 3]))
     case = {
         "version": rnd.choice(["2.2", "2.2", "2.2", "2.1", "2.0", "1.5", "1.4"]),
-        "len": length, "seed": rnd.randrange(10 ** 6), "fill": rnd.choice(["random", "random", "zero", "ff", "lastff"]),
+        "len": length, "seed": rnd.randrange(10 ** 6), "fill": rnd.choice(["random", "random", "zero", "ff", "lastff", "gap"]),
         "fw": list(rnd.choice(FW_IDS)) if rnd.random() < 0.7 else [rnd.randrange(65536), rnd.randrange(65536)],
         "nodes": nodes, "order": order, "order_seed": rnd.randrange(10 ** 6),
         "full": (length <= 4096) if full is None else full,
@@ -267,7 +267,10 @@ def make_case(length, rnd, full=None, via_hex=False):
             "upper": rnd.random() < 0.5,
             "ext": rnd.random() < 0.3,
             "lengths": [rnd.randrange(1, 33) for _ in range(rnd.randrange(1, 6))],
+            "skip_blank": rnd.random() < 0.5,  # erased regions are not in the file: address gaps
         }
+        if case["hexopts"]["skip_blank"] and rnd.random() < 0.7:
+            case["fill"] = "gap"
     return case
 
 
